@@ -20,6 +20,8 @@ import time
 VERIF = os.path.dirname(os.path.dirname(os.path.abspath(__file__)))
 REPO = os.environ.get('VERIF_REPO', '/repo')
 LEAN = os.path.join(VERIF, 'lean')
+# evidence of a run against a scratch copy (seeded-change trials) goes elsewhere, so the committed evidence always describes /repo
+EVIDENCE_DIR = os.environ.get('VERIF_EVIDENCE_DIR') or os.path.join(VERIF, 'evidence')
 DRIVER = os.path.join(LEAN, '.lake', 'build', 'bin', 'pvdriver')
 ALLOWED_AXIOMS = {'propext', 'Classical.choice', 'Quot.sound'}
 FORBIDDEN = re.compile(r'\bsorry\b|\badmit\b|^\s*axiom\s|native_decide|bv_decide|implemented_by|\bunsafe\s|maxHeartbeats\s+0', re.M)
@@ -366,7 +368,7 @@ class Ctx:
     # -- verdict
     def finish(self):
         known = load_known()
-        replay_dir = os.path.join(VERIF, 'evidence', 'replays')
+        replay_dir = os.path.join(EVIDENCE_DIR, 'replays')
         os.makedirs(replay_dir, exist_ok=True)
         lines = []
         violations = 0
@@ -435,8 +437,8 @@ class Ctx:
             'property_id': self.prop, 'tier': self.tier, 'seed': self.seed, 'level': 'proof', 'coverage': cov,
             'assumptions': self.assumptions, 'wall_s': round(time.time() - self.t0, 2), 'violations': violations,
         }
-        os.makedirs(os.path.join(VERIF, 'evidence'), exist_ok=True)
-        with open(os.path.join(VERIF, 'evidence', self.prop + '.json'), 'w') as fp:
+        os.makedirs(EVIDENCE_DIR, exist_ok=True)
+        with open(os.path.join(EVIDENCE_DIR, self.prop + '.json'), 'w') as fp:
             json.dump(ev, fp, indent=1, default=str, sort_keys=True)
 
 
